@@ -10,6 +10,7 @@ using Clock = std::chrono::system_clock;            // renamed to the virtual cl
 using TP = Clock::time_point;
 using ms = std::chrono::milliseconds;
 inline TP at_ms(long t) { return TP(std::chrono::duration_cast<Clock::duration>(ms(t))); }
+inline TP at_us(long t) { return TP(std::chrono::duration_cast<Clock::duration>(std::chrono::microseconds(t))); }
 inline long now_ms() { return (long)(vrt::now_ns() / 1000000); }
 static char idtags[4];
 inline const void *ident(unsigned k) { return &idtags[k & 3]; }
@@ -37,7 +38,7 @@ inline std::string describe_man(const ManProg &p) {
     hz::Desc d; d << "manual mode, " << (unsigned)p.ops.size() << " ops:";
     for (auto &o : p.ops) {
         d << " " << man_opn[o.code];
-        if (o.code <= 2) d << "(now" << (lattice[o.a % 6] - 10 >= 0 ? "+" : "") << (int)(lattice[o.a % 6] - 10) << ",id" << (unsigned)((o.a >> 4) & 3) << ")";
+        if (o.code <= 2) d << "(now" << (lattice[o.a % 6] - 10 >= 0 ? "+" : "") << (int)(lattice[o.a % 6] - 10) << ((o.b & 1) ? ".999 by sleep_for" : "") << ",id" << (unsigned)((o.a >> 4) & 3) << ")";
         else if (o.code <= 5 || o.code == 8) d << "(id" << (unsigned)(o.a & 3) << ")";
         else if (o.code == 6) d << "(+" << (int)lattice[o.a % 6] << ")";
     }
@@ -53,7 +54,7 @@ struct ManRun {
     std::vector<std::unique_ptr<cocls::future<void>>> fut;
     std::vector<Ent> ent;
     bool id_ever_expired[4] = {};
-    long now = 100;
+    long now = 100000;             // model time in MICROseconds (the lattice is in ms; sleep_for adds a fraction of a ms)
     ManStats st;
 
     std::vector<size_t> pending_with(unsigned id) { std::vector<size_t> v; for (size_t i = 0; i < ent.size(); i++) if (ent[i].pending && ent[i].id == id) v.push_back(i); return v; }
@@ -77,7 +78,7 @@ struct ManRun {
         }
     }
     void expire_once(bool &more) {
-        auto r = s->get_expired(at_ms(now));
+        auto r = s->get_expired(at_us(now));
         if (std::holds_alternative<cocls::scheduler::promise>(r)) {
             std::vector<size_t> cand; long m = min_pending();
             for (size_t i = 0; i < ent.size(); i++) if (ent[i].pending) cand.push_back(i);
@@ -97,7 +98,7 @@ struct ManRun {
             long m = min_pending();
             HZ_CHECK(m == LONG_MAX || m > now, "get_expired(now=%ld) returned no promise although a sleep with time point %ld is due", now, m);
             if (m == LONG_MAX) HZ_CHECK(tp == TP::max(), "get_expired reported a next time point although nothing is pending");
-            else HZ_CHECK(tp == at_ms(m), "get_expired reported next time point %ld ms, earliest pending is %ld", (long)std::chrono::duration_cast<ms>(tp.time_since_epoch()).count(), m);
+            else HZ_CHECK(tp == at_us(m), "get_expired reported next time point %ld us, earliest pending is %ld us", (long)std::chrono::duration_cast<std::chrono::microseconds>(tp.time_since_epoch()).count(), m);
             more = false;
         }
     }
@@ -106,10 +107,19 @@ struct ManRun {
         for (auto &o : p.ops) {
             switch (o.code) {
                 case 0: case 1: case 2: {
-                    long tp = now + lattice[o.a % 6] - 10; unsigned id = (o.a >> 4) & 3;
+                    long tp = now + (lattice[o.a % 6] - 10) * 1000; unsigned id = (o.a >> 4) & 3;
+                    if (o.b & 1) {
+                        // sleep_for with a duration that is not a whole number of milliseconds: the time point is clock now + dur, exactly
+                        long vnow = (long)(vrt::now_ns() / 1000);
+                        tp += 999;
+                        for (auto &e : ent) if (e.pending && e.tp == tp) st.equal_deadline++;
+                        ent.push_back({tp, id, -2, true});
+                        fut.emplace_back(new cocls::future<void>(s->sleep_for(std::chrono::microseconds(tp - vnow), ident(id))));
+                        break;
+                    }
                     for (auto &e : ent) if (e.pending && e.tp == tp) st.equal_deadline++;
                     ent.push_back({tp, id, -2, true});
-                    fut.emplace_back(new cocls::future<void>(s->sleep_until(at_ms(tp), ident(id))));
+                    fut.emplace_back(new cocls::future<void>(s->sleep_until(at_us(tp), ident(id))));
                 } break;
                 case 3: case 4: case 8: {
                     unsigned id = o.a & 3; auto cand = pending_with(id);
@@ -134,7 +144,7 @@ struct ManRun {
                         else { pr(cocls::drop); settle(cand, 1, -1, "remove+drop"); }
                     }
                 } break;
-                case 6: { now += lattice[o.a % 6]; bool more = true; int guard = 0; while (more) { expire_once(more); HZ_CHECK(++guard < 200, "get_expired keeps returning promises"); } } break;
+                case 6: { now += lattice[o.a % 6] * 1000; bool more = true; int guard = 0; while (more) { expire_once(more); HZ_CHECK(++guard < 200, "get_expired keeps returning promises"); } } break;
                 default: { bool more; expire_once(more); } break;
             }
             compare(man_opn[o.code]);
